@@ -1,7 +1,7 @@
 /* reflua.c — reference oracle for C15: PUC-Rio Lua 5.3.6 (liblua5.3, whose
    lstrlib.c has the same pattern matcher and the same empty-match rule
    ("lastmatch", introduced in 5.3.3) as Lua 5.4).  Reads the C15 case lines
-     <id> <pattern hex> <subject hex> <init 0-based> <repl hex> <maxn> <budget> <mode>
+     <id> <pattern hex> <subject hex> <init 0-based> <repl hex> <maxn: A | i<signed hex> | f<float>> <budget> <mode>
    and prints  <id> F=.. M=.. GM=.. GS=..  in the notation of gvh-pattern.
    Used only to validate the specification side (Spec.v / Drivers.v S functions). */
 #include <lua5.3/lua.h>
@@ -22,6 +22,7 @@ static const char *prog =
 "  if msg:find('unfinished capture') then return 'unfinished_capture' end\n"
 "  if msg:find('invalid pattern capture') then return 'invalid_pattern_capture' end\n"
 "  if msg:find('too complex') then return 'too_complex' end\n"
+"  if msg:find('no integer representation') then return 'not_integer' end\n"
 "  return 'other' end\n"
 "local function dres(ok, ...)\n"
 "  if not ok then return 'E' .. cls(tostring((...))) end\n"
@@ -30,10 +31,15 @@ static const char *prog =
 "  local t = {} for i = 1, n do t[i] = val((select(i, ...))) end\n"
 "  return 'V' .. table.concat(t, ';') end\n"
 "for line in io.lines() do\n"
-"  local id, ph, sh, init, rh, maxn = line:match('^(%S+) (%S+) (%S+) (%-?%d+) (%S+) (%-?%d+)')\n"
+"  local id, ph, sh, init, rh, maxn = line:match('^(%S+) (%S+) (%S+) (%-?%d+) (%S+) (%S+)')\n"
 "  if id then\n"
 "    local p, s, r = unhex(ph), unhex(sh), unhex(rh)\n"
-"    init = tonumber(init) + 1; maxn = tonumber(maxn)\n"
+"    init = tonumber(init) + 1\n"
+"    local k, body = maxn:sub(1, 1), maxn:sub(2)\n"
+"    if k == 'A' then maxn = nil\n"
+"    elseif k == 'i' then local neg = body:sub(1, 1) == '-'; if neg then body = body:sub(2) end\n"
+"      maxn = tonumber('0x' .. body); if neg then maxn = -maxn end\n"
+"    else maxn = tonumber(body) + 0.0 end\n"
 "    local out = { id }\n"
 "    out[#out+1] = 'F=' .. dres(pcall(string.find, s, p, init))\n"
 "    out[#out+1] = 'M=' .. dres(pcall(string.match, s, p, init))\n"
@@ -48,7 +54,7 @@ static const char *prog =
 "        seq[#seq+1] = table.concat(t, ';')\n"
 "      end end\n"
 "    out[#out+1] = 'GM=' .. table.concat(seq, '/') .. '!' .. fin\n"
-"    if maxn >= 0 then out[#out+1] = 'GS=' .. dres(pcall(string.gsub, s, p, r, maxn))\n"
+"    if maxn ~= nil then out[#out+1] = 'GS=' .. dres(pcall(string.gsub, s, p, r, maxn))\n"
 "    else out[#out+1] = 'GS=' .. dres(pcall(string.gsub, s, p, r)) end\n"
 "    io.write(table.concat(out, ' '), '\\n')\n"
 "  end\n"
